@@ -264,3 +264,131 @@ pub fn gen(seed: u64, thorough: bool, _only: Option<u64>, out: &mut Out) {
   };
   out.case("fp.const".to_string(), consts, v);
 }
+
+// ------------------------------------------------------------------------------------------------------------------
+// limb level: the internal Montgomery limbs of every result (`Vec<u64>::from(Fp)`), on operands whose internal limbs are
+// chosen directly (through a scripted random source: `Fp::random` keeps three words below the modulus as they are)
+
+fn fp_of_limbs(l: [u64; 3]) -> Option<Fp> {
+  let mut rng = crate::g_sharks::ScriptRng::new(vec![l[0], l[1], l[2], 1, 0, 0]);
+  let f = Fp::random(&mut rng);
+  if rng.used == 3 {
+    Some(f)
+  } else {
+    None
+  }
+}
+fn limbs_of(f: &Fp) -> [u64; 3] {
+  let v: Vec<u64> = Vec::from(*f);
+  [v[0], v[1], v[2]]
+}
+fn ls(l: [u64; 3]) -> String {
+  format!("0x{:016x},0x{:016x},0x{:016x}", l[0], l[1], l[2])
+}
+fn la(l: [u64; 3]) -> String {
+  format!("0x{:016x} 0x{:016x} 0x{:016x}", l[0], l[1], l[2])
+}
+
+pub fn gen_limbs(seed: u64, thorough: bool, out: &mut Out) {
+  let m = u64::MAX;
+  // internal forms on and next to every limb and carry boundary, the extreme valid triple (p - 1), ONE = R, R2
+  let mut vals: Vec<[u64; 3]> = vec![
+    [0, 0, 0], [1, 0, 0], [2, 0, 0], [12450, 0, 0], [12451, 0, 0], [m, 0, 0], [m - 1, 0, 0], [1 << 63, 0, 0], [(1 << 63) - 1, 0, 0],
+    [0, 1, 0], [m, 1, 0], [0, m, 0], [m, m, 0], [m - 1, m, 0], [0, 1 << 63, 0], [m, (1 << 63) - 1, 0], [1, m, 0],
+    [0, 0, 1], [1, 0, 1], [12449, 0, 1], [12450, 0, 1],
+    limbs_of(&Fp::ONE), limbs_of(&Fp::TWO_INV), limbs_of(&Fp::MULTIPLICATIVE_GENERATOR), limbs_of(&Fp::ROOT_OF_UNITY), limbs_of(&Fp::DELTA),
+    limbs_of(&Fp::from(1u64)), limbs_of(&Fp::from(u64::MAX)),
+  ];
+  let mut r = Prng::for_case(seed, "C07-limbs", 0);
+  for _ in 0..(if thorough { 150 } else { 12 }) {
+    vals.push([r.next(), r.next(), 0]);
+  }
+  let elems: Vec<([u64; 3], Fp)> = vals.iter().filter_map(|l| fp_of_limbs(*l).map(|f| (*l, f))).collect();
+  // the scripted source must hand the limbs over unchanged
+  for (l, f) in &elems {
+    if limbs_of(f) != *l {
+      out.case(format!("fpl.rand {}", la(*l)), ls(limbs_of(f)), Err("Fp::random changed accepted words".into()));
+    }
+  }
+  for (la_, fa) in &elems {
+    for (lb_, fb) in &elems {
+      for op in ["add", "sub", "mul"] {
+        let res = match op {
+          "add" => *fa + *fb,
+          "sub" => *fa - *fb,
+          _ => *fa * *fb,
+        };
+        let lr = limbs_of(&res);
+        let valid = lr[2] == 0 || (lr[2] == 1 && lr[1] == 0 && lr[0] < 12451);
+        out.case(format!("fpl.bin {} {} {}", op, la(*la_), la(*lb_)), ls(lr), if valid { Ok(()) } else { Err("result limbs are not below the modulus".into()) });
+      }
+    }
+  }
+  for (l, fa) in &elems {
+    out.case(format!("fpl.un neg {}", la(*l)), ls(limbs_of(&-*fa)), Ok(()));
+    out.case(format!("fpl.un dbl {}", la(*l)), ls(limbs_of(&fa.double())), Ok(()));
+    out.case(format!("fpl.un sq {}", la(*l)), ls(limbs_of(&fa.square())), if fa.square() == *fa * *fa { Ok(()) } else { Err("square differs from the product".into()) });
+    let canon = fa.to_repr();
+    let cb = canon.as_ref();
+    let cl = [u64::from_le_bytes(cb[0..8].try_into().unwrap()), u64::from_le_bytes(cb[8..16].try_into().unwrap()), u64::from_le_bytes(cb[16..24].try_into().unwrap())];
+    out.case(format!("fpl.un canon {}", la(*l)), format!("{} {} {}", ls(cl), hex(cb), if bool::from(fa.is_odd()) { "odd" } else { "even" }), Ok(()));
+    let inv: Option<Fp> = Option::from(fa.invert());
+    out.case(format!("fpl.un inv {}", la(*l)), inv.map(|i| ls(limbs_of(&i))).unwrap_or("none".into()), Ok(()));
+    let sq: Option<Fp> = guarded(|| Option::from(fa.sqrt())).unwrap_or(None);
+    out.case(format!("fpl.un sqrt {}", la(*l)), sq.map(|i| ls(limbs_of(&i))).unwrap_or("none".into()), Ok(()));
+    let s2 = fa.square();
+    let rt: Option<Fp> = Option::from(s2.sqrt());
+    out.case(format!("fpl.un sqrt {}", la(limbs_of(&s2))), rt.map(|i| ls(limbs_of(&i))).unwrap_or("none".into()), if rt.is_some() { Ok(()) } else { Err("a square has no root".into()) });
+    for e in [[0u64, 0, 0, 0], [1, 0, 0, 0], [3, 0, 0, 0], [m, 0, 0, 0], [0, 1, 0, 0], [12449, 0, 1, 0], [r.next(), r.next(), r.next() & 1, 0]] {
+      out.case(format!("fpl.pow {} 0x{:x} 0x{:x} 0x{:x} 0x{:x}", la(*l), e[0], e[1], e[2], e[3]), ls(limbs_of(&fa.pow_vartime(e))), Ok(()));
+    }
+  }
+  // from_repr / From<u64> / one round of random, down to the limbs
+  for s in lattice().iter().chain([le24(1, 12451), le24(1, 12452), le24(2, 0), le24(u64::MAX, u128::MAX)].iter()) {
+    let d = fp_of(s);
+    out.case(format!("fpl.from {}", hex(s)), d.map(|f| ls(limbs_of(&f))).unwrap_or("none".into()), Ok(()));
+  }
+  for v in [0u64, 1, 2, 12450, 12451, 1 << 32, 1 << 63, m - 1, m, r.next()] {
+    out.case(format!("fpl.u64 0x{:x}", v), ls(limbs_of(&Fp::from(v))), Ok(()));
+  }
+  for i in 0..(if thorough { 400 } else { 30 }) {
+    let w = match i {
+      0 => [12450, 0, 1],
+      1 => [12451, 0, 1],
+      2 => [12450, 0, m],
+      3 => [0, 1, 3],
+      4 => [m, m, 2],
+      _ => [r.next(), r.next(), r.next()],
+    };
+    let mut rng = crate::g_sharks::ScriptRng::new(vec![w[0], w[1], w[2], 9, 9, 0]);
+    let f = Fp::random(&mut rng);
+    out.case(format!("fpl.rand {}", la(w)), if rng.used == 3 { ls(limbs_of(&f)) } else { "none".into() }, Ok(()));
+  }
+  out.case(
+    "fpl.const".to_string(),
+    format!(
+      "{} {} {} {} {} {} {} {}",
+      ls(limbs_of(&Fp::ONE)),
+      ls(limbs_of(&r2_limbs())),
+      ls(limbs_of(&Fp::TWO_INV)),
+      ls(limbs_of(&Fp::MULTIPLICATIVE_GENERATOR)),
+      ls(limbs_of(&Fp::ROOT_OF_UNITY)),
+      ls(limbs_of(&Fp::ROOT_OF_UNITY_INV)),
+      ls(limbs_of(&Fp::DELTA)),
+      ls(modulus_limbs())
+    ),
+    Ok(()),
+  );
+}
+/// R2 = 2^384 mod p in Montgomery form is the element 2^192: the element whose canonical value is 2^192 mod p
+fn r2_limbs() -> Fp {
+  // internal limbs R2 <=> field element R2 * 2^-192 = 2^192 mod p
+  Fp::from(2u64).pow_vartime([192u64])
+}
+/// the modulus as the type publishes it (hex string), cut into limbs
+fn modulus_limbs() -> [u64; 3] {
+  let h = Fp::MODULUS.trim_start_matches("0x");
+  let v = u128::from_str_radix(&h[h.len().saturating_sub(32)..], 16).unwrap_or(0);
+  let hi = u64::from_str_radix(&h[..h.len().saturating_sub(32)], 16).unwrap_or(0);
+  [v as u64, (v >> 64) as u64, hi]
+}
